@@ -199,6 +199,43 @@ type c22Sim struct {
 	imported   int
 	importFail int
 	hand       *c22HandState // nil without a hand-off
+	// crashed: honest nodes whose process would have died: a call of the harness into the real Service panicked
+	// (node -> panic text). Such a node is dead from that moment on: nothing is delivered to it, nothing it signs,
+	// sends or finalises afterwards exists (see nodePanicked). What it finalised before stays in the history.
+	crashed map[int]string
+	panics  []map[string]any // panics that are NOT the deliberate upstream one: reported as violations
+}
+
+// c22Issue3066 is the marker of the deliberate panic of BlockState.GetRuntime for a block that is not in the block tree.
+const c22Issue3066 = "github.com/ChainSafe/gossamer/issues/3066"
+
+// nodePanicked records that a call into the real Service of honest node i panicked on a goroutine the harness owns
+// (in production: the network's handler goroutine / the goroutines of Service.Start, nobody recovers, the process
+// dies). The node is treated as a crashed voter (liveness is not judged); the execution continues with the others
+// and safety is judged over everything that was finalised, including by this node before it died. Only the
+// deliberate upstream panic (issue 3066: robustness, not safety) is a counter; any other panic is a violation.
+func (s *c22Sim) nodePanicked(i int, where string, r any, stack []byte) {
+	msg := fmt.Sprint(r)
+	s.mu.Lock()
+	defer s.mu.Unlock()
+	if _, dead := s.crashed[i]; !dead {
+		s.crashed[i] = msg
+		s.counters["nodes_crashed_by_a_panic"]++
+	}
+	if strings.Contains(msg, c22Issue3066) {
+		s.counters["node_panicked_issue_3066"]++
+		return
+	}
+	s.counters["node_panicked_other"]++
+	s.panics = append(s.panics, map[string]any{"node": i, "in": where, "panic": msg, "stack": string(stack),
+		"at_ms": time.Since(s.start).Milliseconds()})
+}
+
+func (s *c22Sim) isCrashed(i int) bool {
+	s.mu.Lock()
+	defer s.mu.Unlock()
+	_, dead := s.crashed[i]
+	return dead
 }
 
 func (s *c22Sim) count(name string, n int) {
@@ -293,6 +330,9 @@ func (s *c22Sim) recordVote(origin string, id ed25519.PublicKeyBytes, stage Subr
 
 // honestGossip is the OnGossip hook of honest node `from`.
 func (s *c22Sim) honestGossip(from int, gm GrandpaMessage) {
+	if s.isCrashed(from) {
+		return // the process of this node died: what its left-over goroutines sign does not exist
+	}
 	// every vote an honest service signs is part of the history, also while the execution is being stopped
 	// (finalisations are recorded until the services have stopped)
 	if m, ok := gm.(*VoteMessage); ok {
@@ -334,7 +374,7 @@ func (s *c22Sim) honestGossip(from int, gm GrandpaMessage) {
 
 // honestSend is the OnSend hook (a node answers a lagging peer with a commit message).
 func (s *c22Sim) honestSend(from int, to peer.ID, gm GrandpaMessage) {
-	if s.closed.Load() {
+	if s.closed.Load() || s.isCrashed(from) {
 		return
 	}
 	s.count("honest_direct_send", 1)
@@ -379,6 +419,11 @@ func (s *c22Sim) deliver(to, from int, cm *ConsensusMessage, desc string, byz bo
 		return
 	}
 	s.mu.Lock()
+	if _, dead := s.crashed[to]; dead {
+		s.counters["deliveries_skipped_node_crashed"]++
+		s.mu.Unlock()
+		return
+	}
 	s.deliv[to] = append(s.deliv[to], fmt.Sprintf("%d:%s", from, desc))
 	if byz {
 		s.byzDeliv++
@@ -390,6 +435,11 @@ func (s *c22Sim) deliver(to, from int, cm *ConsensusMessage, desc string, byz bo
 		s.honDeliv++
 	}
 	s.mu.Unlock()
+	defer func() {
+		if r := recover(); r != nil {
+			s.nodePanicked(to, "handleNetworkMessage <- "+fmt.Sprintf("%d:%s", from, desc), r, debug.Stack())
+		}
+	}()
 	_, err := node.Service.handleNetworkMessage(c22Peer(from), cm)
 	kind := "vote"
 	if strings.HasPrefix(desc, "commit") {
@@ -410,6 +460,11 @@ func (s *c22Sim) deliver(to, from int, cm *ConsensusMessage, desc string, byz bo
 // onFinalise is the hook behind every SetFinalisedHash call of honest node i.
 func (s *c22Sim) onFinalise(i int, f verifFinalisation) {
 	s.mu.Lock()
+	if _, dead := s.crashed[i]; dead {
+		s.counters["finalisations_ignored_node_crashed"]++
+		s.mu.Unlock()
+		return
+	}
 	ev := c22Event{Seq: len(s.events), Node: i, Block: s.tree.Index(f.Hash), Round: f.Round, SetID: f.SetID}
 	if ev.Block < 0 {
 		ev.Hash = f.Hash.String()
@@ -455,6 +510,9 @@ func (s *c22Sim) minRound() uint64 {
 	var m uint64
 	for _, i := range s.hon {
 		if _, dead := s.svcErr[i]; dead {
+			continue
+		}
+		if _, dead := s.crashed[i]; dead {
 			continue
 		}
 		if first || s.roundOf[i] < m {
@@ -535,12 +593,18 @@ func (s *c22Sim) run() error {
 		// Service.Start() without its panic-on-error wrapper: the error of the round loop is recorded,
 		// and the two goroutines can be joined before the database is closed
 		go func() { // = tracker.start()
+			defer func() {
+				if r := recover(); r != nil {
+					s.nodePanicked(i, "tracker.handleBlocks", r, debug.Stack())
+				}
+				trackerDone <- i
+			}()
 			svc.tracker.handleBlocks()
-			trackerDone <- i
 		}()
 		go func() {
 			defer func() {
 				if r := recover(); r != nil {
+					s.nodePanicked(i, "initiate (round loop)", r, debug.Stack())
 					s.mu.Lock()
 					s.svcErr[i] = fmt.Sprintf("panic: %v", r)
 					s.mu.Unlock()
@@ -1755,31 +1819,37 @@ func c22Check(p *c22Params, t *verifTree, keys []*ed25519.Keypair, events []c22E
 			w := map[string]any{"first": a, "second": b,
 				"first_supermajority": ca*3 > 2*na, "first_precommit_authorities": wa,
 				"second_supermajority": cb*3 > 2*nb, "second_precommit_authorities": wb}
-			// Attribution to known finding C22-K1 (a voter does not carry the estimate of round r into round
-			// r+1). Decided from the history alone: both finalisations are backed by a genuine supermajority of
-			// correctly signed precommits, no honest service equivocated, the two rounds differ, and an honest
-			// voter that precommitted the earlier block (or a descendant) in the earlier round voted, in a
-			// later round up to the later finalisation, for a block on another fork.
+			// Attribution to known finding C22-K1 (a voter does not carry the estimate of round r into the next
+			// round). Rounds restart at 1 under every authority set, so "earlier / later round" is the
+			// lexicographic order of (set id, round). Decided from the history alone: both finalisations are
+			// backed by a genuine supermajority of correctly signed precommits of the members of the set the node
+			// finalised under (same test as finalised-without-supermajority), no honest service equivocated, the
+			// two (set, round) pairs differ, and an honest voter (member of the earlier set) that precommitted the
+			// earlier block (or a descendant) in the earlier (set, round) voted (as a member of the set of that
+			// vote), in a later (set, round) up to the one of the later finalisation, for a block on another
+			// fork. Same (set, round), a side without supermajority, an honest equivocation, no such voter: VIOLATION.
+			before := func(s1, r1, s2, r2 uint64) bool { return s1 < s2 || (s1 == s2 && r1 < r2) }
 			lo, hi := a, b
-			if lo.Round > hi.Round {
+			if before(hi.SetID, hi.Round, lo.SetID, lo.Round) {
 				lo, hi = hi, lo
 			}
 			var switched []map[string]any
-			if ca*3 > 2*na && cb*3 > 2*nb && len(v.HonestEquiv) == 0 && lo.SetID == hi.SetID && lo.Round < hi.Round {
+			if ca*3 > 2*na && cb*3 > 2*nb && len(v.HonestEquiv) == 0 && before(lo.SetID, lo.Round, hi.SetID, hi.Round) {
 				for _, pc := range honestVotes {
 					if pc.Stage != byte(precommit) || pc.Round != lo.Round || pc.SetID != lo.SetID || pc.Block < 0 ||
-						!t.IsAncestorOrEqual(lo.Block, pc.Block) {
+						!member(lo.SetID, pc.Auth) || !t.IsAncestorOrEqual(lo.Block, pc.Block) {
 						continue
 					}
 					for _, lv := range honestVotes {
-						if lv.Auth != pc.Auth || lv.SetID != lo.SetID || lv.Round <= lo.Round || lv.Round > hi.Round ||
-							lv.Block < 0 {
+						if lv.Auth != pc.Auth || lv.Block < 0 || !member(lv.SetID, lv.Auth) ||
+							!before(lo.SetID, lo.Round, lv.SetID, lv.Round) || before(hi.SetID, hi.Round, lv.SetID, lv.Round) {
 							continue
 						}
 						if !t.IsAncestorOrEqual(lo.Block, lv.Block) && !t.IsAncestorOrEqual(lv.Block, lo.Block) {
 							switched = append(switched, map[string]any{"authority": pc.Auth,
-								"precommitted_block": pc.Block, "in_round": pc.Round,
-								"later_voted_block": lv.Block, "later_round": lv.Round, "later_stage": lv.Stage})
+								"precommitted_block": pc.Block, "in_round": pc.Round, "in_set": pc.SetID,
+								"later_voted_block": lv.Block, "later_round": lv.Round, "later_set": lv.SetID,
+								"later_stage": lv.Stage})
 						}
 					}
 				}
@@ -1817,7 +1887,7 @@ func c22Execute(c *vcommon.Case, p *c22Params) (observed map[string]int) {
 	keys := verifKeypairs(p.Salt^0xc22, p.N+p.extraKeys()) // keys[:N] = the first set; further keys join at a hand-off
 	s := &c22Sim{c: c, p: p, tree: tree, keys: keys, outs: verifKeypairs(p.Salt^0x0ddba11, 3),
 		nodes: map[int]*verifNode{}, hon: p.honest(), voteSeen: map[string]bool{}, deliv: map[int][]string{},
-		headOf: map[int]int{}, roundOf: map[int]uint64{}, svcErr: map[int]string{}, svcDump: map[int]string{}, counters: map[string]int{}}
+		headOf: map[int]int{}, roundOf: map[int]uint64{}, svcErr: map[int]string{}, svcDump: map[int]string{}, counters: map[string]int{}, crashed: map[int]string{}}
 	s.adv = &c22Adv{s: s, r: vcommon.NewRand(p.AdvSeed), stageSeen: map[string]bool{},
 		votes: map[uint64]map[byte]map[int]*VoteMessage{}, commits: map[uint64]*CommitMessage{}, forged: map[string]int{}}
 	if p.Handoff != nil {
@@ -1831,6 +1901,11 @@ func c22Execute(c *vcommon.Case, p *c22Params) (observed map[string]int) {
 	s.mu.Lock()
 	events := append([]c22Event{}, s.events...)
 	votes := append([]c22VoteRec{}, s.votes...)
+	crashed := map[int]string{}
+	for i, m := range s.crashed {
+		crashed[i] = m
+	}
+	otherPanics := append([]map[string]any{}, s.panics...)
 	s.mu.Unlock()
 
 	v := c22Check(p, tree, keys, events, votes)
@@ -1965,6 +2040,9 @@ func c22Execute(c *vcommon.Case, p *c22Params) (observed map[string]int) {
 		if s.hand != nil {
 			w["handoff_applied_ms"] = s.hand.appliedMs
 		}
+		if len(crashed) > 0 {
+			w["nodes_crashed_by_a_panic"] = crashed
+		}
 		if len(s.svcErr) > 0 {
 			w["round_loop_errors"] = s.svcErr
 			w["round_loop_error_state"] = s.svcDump
@@ -1977,11 +2055,15 @@ func c22Execute(c *vcommon.Case, p *c22Params) (observed map[string]int) {
 	}
 	c22ReportMu.Lock()
 	defer c22ReportMu.Unlock()
+	for _, x := range otherPanics {
+		c.Violation("panic", "a call into the real Service of an honest node panicked (not the deliberate panic of issue 3066): "+
+			fmt.Sprint(x["panic"]), witness(x))
+	}
 	c.Count("conflicts_attributed_to_C22-K1", len(v.KnownK1))
 	observed["conflicts_attributed_to_C22-K1"] = len(v.KnownK1)
 	for _, x := range v.KnownK1 {
-		c.Known("C22-K1", "two blocks on different forks were finalised in different rounds, each by a genuine "+
-			"supermajority: honest voters precommitted the first block and voted for another fork in a later round",
+		c.Known("C22-K1", "two blocks on different forks were finalised in different (set, round)s, each by a genuine "+
+			"supermajority: honest voters precommitted the first block and voted for another fork in a later (set, round)",
 			witness(x))
 	}
 	for _, x := range v.Unjustified {
